@@ -717,6 +717,84 @@ class PathEval:
         self.env.update(outer)
         return False
 
+    def _argmax_loop(self, s: ast.For) -> bool:
+        """top = T0; best = B0; for f in CANDS: <compute v(f)>; if v > top: top = v; best = f
+           ->  best = __argmax__(v(f) for f in CANDS, start=T0, strict=True)   (first maximal element in iteration order; `>=` gives strict=False)
+        The statements that compute v(f) are evaluated by the path evaluator itself (inner loops summarised, decidable tests decided)."""
+        if not isinstance(s.target, ast.Name):
+            return False
+        f = s.target.id
+        body = [b for b in s.body if not is_noise_stmt(b) and not isinstance(b, ast.Pass)]
+        if not body or not isinstance(body[-1], ast.If) or body[-1].orelse:
+            return False
+        u = body[-1]
+        unset = None
+        utest = u.test
+        if isinstance(utest, ast.BoolOp) and isinstance(utest.op, ast.Or) and len(utest.values) == 2 and isinstance(utest.values[1], ast.Compare):
+            first = utest.values[0]
+            if isinstance(first, ast.UnaryOp) and isinstance(first.op, ast.Not) and isinstance(first.operand, ast.Name):
+                unset, utest = ('falsy', first.operand.id), utest.values[1]
+            elif isinstance(first, ast.Compare) and len(first.ops) == 1 and isinstance(first.ops[0], ast.Is) and isinstance(first.left, ast.Name) and isinstance(first.comparators[0], ast.Constant) and first.comparators[0].value is None:
+                unset, utest = ('none', first.left.id), utest.values[1]
+        if not (isinstance(utest, ast.Compare) and len(utest.ops) == 1 and isinstance(utest.ops[0], (ast.Gt, ast.GtE, ast.Lt, ast.LtE))):
+            return False
+        u = ast.If(test=utest, body=u.body, orelse=u.orelse)
+        # the update block: top = v ; best = f   (in any order, or as one tuple assignment)
+        assigned = {}
+        for b in u.body:
+            if isinstance(b, ast.Assign) and len(b.targets) == 1 and isinstance(b.targets[0], ast.Name):
+                assigned[b.targets[0].id] = b.value
+            elif isinstance(b, ast.Assign) and len(b.targets) == 1 and isinstance(b.targets[0], ast.Tuple) and isinstance(b.value, ast.Tuple) and len(b.value.elts) == len(b.targets[0].elts) and all(isinstance(x, ast.Name) for x in b.targets[0].elts):
+                for x, v in zip(b.targets[0].elts, b.value.elts):
+                    assigned[x.id] = v
+            elif is_noise_stmt(b):
+                continue
+            else:
+                return False
+        if len(assigned) not in (1, 2):
+            return False
+        best = [k for k, v in assigned.items() if isinstance(v, ast.Name) and v.id == f]
+        if len(best) != 1:
+            return False
+        best = best[0]
+        l, r, op = u.test.left, u.test.comparators[0], u.test.ops[0]
+        # which side is the running best value?  (a name that has a start value before the loop)
+        if isinstance(r, ast.Name) and r.id in self.env and self.env[r.id] is not None and r.id != f:
+            top, val_e, rel_op = r.id, l, {ast.Gt: '>', ast.GtE: '>=', ast.Lt: '<', ast.LtE: '<='}[type(op)]
+        elif isinstance(l, ast.Name) and l.id in self.env and self.env[l.id] is not None and l.id != f:
+            top, val_e, rel_op = l.id, r, {ast.Gt: '<', ast.GtE: '<=', ast.Lt: '>', ast.LtE: '>='}[type(op)]
+        else:
+            return False
+        if unset is not None and unset[1] != top:
+            return False
+        strict = rel_op in ('>', '<')
+        updates_top = top in assigned and ast.unparse(assigned[top]) == ast.unparse(val_e)
+        if top in assigned and not updates_top:
+            return False
+        if len(assigned) == 2 and top not in assigned:
+            return False
+        if best not in self.env:
+            return False
+        # evaluate the statements that compute the value with a child evaluator (the candidate stays symbolic)
+        child = PathEval(self.fn, self.pred, self.value, self.other)
+        child.keep_ifexp = True
+        child.env.update({k: v for k, v in self.env.items() if k != f})
+        child.local_funcs = dict(self.local_funcs)
+        cres = child.run(body[:-1])
+        if cres.unknown is not None or cres.ended is not None or cres.updates or [c for c in cres.calls]:
+            return False
+        val = child.subst(val_e)
+        it = self.subst(s.iter)
+        gen = ast.GeneratorExp(elt=val, generators=[ast.comprehension(target=ast.Name(f, ast.Store()), iter=it, ifs=[], is_async=0)])
+        # rel: how a candidate's value must compare with the running best to replace it ('>' / '>=' maximise, '<' / '<=' minimise);
+        # tracked: whether the running best value is updated together with the best element
+        kw = [ast.keyword(arg='start', value=copy.deepcopy(self.env[top])), ast.keyword(arg='strict', value=ast.Constant(bool(strict))), ast.keyword(arg='rel', value=ast.Constant(rel_op)),
+              ast.keyword(arg='tracked', value=ast.Constant(bool(updates_top))), ast.keyword(arg='unset', value=ast.Constant(unset[0] if unset else 'never'))]
+        self.env[best] = ast.fix_missing_locations(ast.Call(func=ast.Name('__argmax__', ast.Load()), args=[gen], keywords=kw))
+        self.env[top] = ast.fix_missing_locations(ast.Call(func=ast.Name('__max__', ast.Load()), args=[copy.deepcopy(gen)], keywords=copy.deepcopy(kw)))
+        self.env[f] = None
+        return True
+
     def _minmax_loop(self, s: ast.For) -> bool:
         """acc = E(0); for i in range(1, N): c = E(i); if c < acc: acc = c      ->   acc = min(E(i) for i in range(N))   (max alike;
         also acc = min(acc, c)); with a start that is not E(0) the first value is kept as an extra element."""
@@ -1055,10 +1133,12 @@ class PathEval:
                 if isinstance(s.value, ast.IfExp):
                     self._undecided = None
                     v = self.truth(s.value.test)
+                    if v is None and getattr(self, 'keep_ifexp', False):
+                        v = 'keep'
                     if v is None:
                         self.res.unknown, self.res.unknown_test = s, (self._undecided if self._undecided is not None else s.value.test)
                         return 'end'
-                    val = self.subst(s.value.body if v else s.value.orelse)
+                    val = self.subst(s.value) if v == 'keep' else self.subst(s.value.body if v else s.value.orelse)
                 if isinstance(tgt, ast.Name):
                     val._seq = self.seq
                     self.env[tgt.id] = val
@@ -1082,6 +1162,9 @@ class PathEval:
                         and not any(isinstance(x, ast.Name) and x.id == a0.key.id for x in ast.walk(a0.value)):
                     self.res.updates.append(dict(kind='storeall', target=self.subst(s.value.func.value), over=self.subst(a0.generators[0].iter), key=None, value=self.subst(a0.value), node=s))
                     return None
+            if isinstance(s, ast.For) and not s.orelse and self._argmax_loop(s):
+                self._summarised = True
+                return None
             if isinstance(s, ast.For) and not s.orelse and self._minmax_loop(s):
                 self._summarised = True
                 return None
